@@ -454,6 +454,28 @@ class CFG:
                     work.append(d)
         return True
 
+    def all_paths_cross(self, starts, edge_through, edge_ok=None, targets=None):
+        """True iff every path from any start node to any node of `targets` (default: exit and raise_exit) crosses an edge e with
+        edge_through(e). Unlike all_paths_pass this distinguishes how a node is left: a statement that raises has not taken effect."""
+        tg = set(t.id for t in (targets if targets is not None else [self.exit, self.raise_exit]))
+        seen = set()
+        work = list(starts)
+        for s in starts:
+            seen.add(s.id)
+        while work:
+            n = work.pop()
+            for e in n.succ:
+                if edge_ok and not edge_ok(e):
+                    continue
+                if edge_through(e):
+                    continue
+                if e.dst.id in tg:
+                    return False
+                if e.dst.id not in seen:
+                    seen.add(e.dst.id)
+                    work.append(e.dst)
+        return True
+
     def path_exists(self, starts, goal, edge_ok=None, node_blocked=None):
         """is there a path (length >= 1) from a start to a node satisfying goal(n)?"""
         seen = set()
